@@ -144,7 +144,8 @@ fn hash_int_function(
     let hash = hasher.finish();
 
     let result = if allow_leading_zero {
-        format!("{:0width$}", hash, width = length)
+        // a format width above u16::MAX panics
+        format!("{:0width$}", hash, width = length.min(u16::MAX as usize))
     } else {
         format!("{}", hash)
     };
